@@ -17,7 +17,12 @@
 (*   y     the returned coupling values, rho the outputs of the harness    *)
 (*         disciplines re-executed on the returned data minus the returned *)
 (*         values - both as EXACT doubles <<sign, BigNat, e>> = s*n/2^e.   *)
-(* Judge prints <<"V", id, errOK, resOK, consOK>>:                         *)
+(*   dtype / reuse / plain  the flavour of the harness disciplines (see    *)
+(*         MDATrace; not part of the system): integer-typed couplings are  *)
+(*         admitted on the nilpotent family for a plain fixed-point class  *)
+(*         (no acceleration, relaxation 1: IntegralOrbit of MDA.tla);      *)
+(* Judge prints <<"V", id, errOK, resOK, consOK, stalled>> (stalled: the   *)
+(* first residual of the kind vanishes on some resolved variable only):    *)
 (*   errOK   ||y - Exact||_inf <= Amp * tol * S   (the bound APost gives   *)
 (*           at Stop; S = the scaling reference the specification computes *)
 (*           from the first residual of the first execution),              *)
@@ -54,8 +59,13 @@ R0(I, kind, o) == LET s == TLCEval(DVec(I.y0))
 
 \* pairs <<BigNat S, E>> = S / 4^E
 PMax(a, b) == IF BCmpSh(a[1], 2 * (b[2] - a[2]), b[1]) <= 0 THEN b ELSE a
-RECURSIVE PMaxTo(_, _)
-PMaxTo(f, n) == IF n = 0 THEN One ELSE IF n = 1 THEN f[1] ELSE PMax(f[n], PMaxTo(f, n - 1))
+\* the largest of f[1..n] (One when n = 0).  The values are forced into a tuple first and the maximum is picked
+\* by index: TLC passes operator arguments unevaluated, and a recursion through PMax (which mentions its
+\* second argument three times) costs 3^n evaluations of the references - minutes for 6 resolved components
+PLeq(a, b) == BCmpSh(a[1], 2 * (b[2] - a[2]), b[1]) <= 0
+PMaxTo(f, n) == IF n = 0 THEN One
+                ELSE LET v == TLCEval([j \in 1..n |-> f[j]])
+                     IN  v[CHOOSE i \in 1..n : \A j \in 1..n : PLeq(v[j], v[i])]
 PTimes(a, m) == <<BMulSmall(a[1], m), a[2]>>
 
 \* the square of (an upper bound of) the scaling reference; the residual lives on the resolved
@@ -133,7 +143,10 @@ RInit == /\ tid \in 1..Len(Reports)
          /\ Start(R.inst, [alg |-> "J", w |-> 2, ord |-> R.ord, t |-> 1, maxit |-> 1, scal |-> "no",
                            warm |-> FALSE, runs |-> 1, a1 |-> "J", t1 |-> 1, m1 |-> 1], ExAux(R.inst))
          /\ (R.scal \in {"no", "ncpl"} \/ R.kind \in {"J", "GS"}) = TRUE
+         /\ (R.dtype \in {"float", "int"} /\ R.reuse \in BOOLEAN /\ R.plain \in BOOLEAN) = TRUE
+         /\ (R.dtype = "int" => (R.plain /\ IntegralOrbit(R.inst, [w |-> 2]))) = TRUE
 RNext == UNCHANGED <<vars, tid>>
 
-Judge == LET v == Verdict3 IN PrintT(<<"V", R.id, v[1], v[2], v[3]>>)
+RStalled == R.kind \in {"J", "GS"} /\ StalledStart(R.inst, R.kind, R.ord)
+Judge == LET v == Verdict3 IN PrintT(<<"V", R.id, v[1], v[2], v[3], RStalled>>)
 =============================================================================
